@@ -2,6 +2,7 @@
 import re
 from rulelib import *
 from factbase import AnchorError, op_place, op_const
+from props import pico_shared
 
 TITLE = "Garbage collection keeps retained results and never breaks reads"
 TECHNIQUE = "compile-fail borrow witnesses + MIR who-may-call / dataflow / must-pass-through rules over pico GC"
@@ -123,6 +124,22 @@ def run(cx):
           "top_level_calls must be drained into the LRU cache before the roots are read", g.loc())
     # put receives the drained ids
     cx.count(len(put))
+
+    # every drained top-level call refreshes its LRU position
+    nxt = nexts
+    sw_ = None
+    for t in g.calls():
+        if term_calls(t, r"Iterator>::next$"):
+            sw_ = switch_on_call_result(g, t)
+    if sw_ is None or "Some" not in sw_["arms"]:
+        raise AnchorError("Storage::run_garbage_collection: drain loop not recognised")
+    pth = path_without(g, sw_["arms"]["Some"], nxt, put)
+    cx.ob("R03.roots", g.id + "|every-call-refreshes-lru", pth is None,
+          "a recorded top-level call can skip LruCache::put: re-calling a cached query no longer refreshes its "
+          "recency, so one of the most recently called queries is evicted and collected", g.loc(),
+          detail=fmt_path(g, pth) if pth else None)
+    pico_shared.gc_index_fidelity(cx, fb, "R03.gc-index-fidelity")
+    pico_shared.node_stability(cx, fb, "R03.node-stability")
 
     # ---- R03.trace ----------------------------------------------------------
     c = fb.one(r"InternalStorage<Db>>::run_garbage_collection$")
